@@ -127,6 +127,8 @@ class RawPacketData(bytes):
         : bytes
             Raw bytes from the packet data
         """
+        if nbits < 0:
+            raise ValueError("Cannot read a negative number of bits")
         if self.pos + nbits > len(self) * 8:
             raise ValueError("End of packet reached")
         if self.pos % 8 == 0 and nbits % 8 == 0:
@@ -152,6 +154,8 @@ class RawPacketData(bytes):
         : int
             Integer representation of the bits read from the packet
         """
+        if nbits < 0:
+            raise ValueError("Cannot read a negative number of bits")
         int_data = _extract_bits(self, self.pos, nbits)
         self.pos += nbits
         return int_data
